@@ -120,6 +120,9 @@ func isFeeRefund(e *Eff) bool {
 
 func ruleC04(c *Check) {
 	c.assume("A-SDK: BurnCoins destroys exactly the coins given; sdk.Dec arithmetic is correct")
+	// the slash fraction in force is any value of [0,1]: every place that validates parameters applies to it the validator
+	// registered for it (genesis validation pairing it with the tax's validator refuses the legal value 1)
+	c.paramValidatorsAgree("C04.7")
 	ss := c.slashFuncs()
 	if !c.req(len(ss) >= 1, "C04.1", "slash-function", token.NoPos, "functions burning from the deposit account: "+strings.Join(fnNames(ss), ",")) {
 		return
